@@ -110,6 +110,20 @@ theorem budget_run (k : Nat) (ff : Bool) : ∀ (cs : List B) (acc : B), acc.leng
         rw [hm, List.flatten_cons, ← List.append_assoc, List.take_append_of_le_length (by simp; omega)]
         rw [List.take_append, List.take_of_length_le h]
 
+/-- **A failing flush is reported wherever the structure starts**: whatever the sink had accepted before (`acc`: the
+    structure need not be the first thing on the stream — `serialize_on_field_write` at any position), if the final
+    `flush` fails the result is a write error. -/
+theorem flush_fail_any_offset (sk : Sink) (cs : List B) (acc : B) (hfl : ∀ a, sk.flushOk a = false) :
+    (runSink sk acc cs).2 = .writeError := by
+  cases h : (runSink sk acc cs).2 with
+  | writeError => rfl
+  | ok n =>
+    have := (runSink_ok sk cs acc n h).2.2
+    rw [hfl] at this
+    cases this
+
+example : (runSink (budgetSink 100 true) [0, 0, 0] [[1, 2], [3]]).2 = .writeError := by decide
+
 /-! ### The borrowed buffer of a slice reference
 
     `impl SerializeInner for &[T]` builds a `Vec` aliasing the slice and keeps it in a
